@@ -1278,9 +1278,31 @@ def extra_checks(ctx):
                     "detail": "configurable options per subcommand changed: live %r, harness %r" % (r, want)})
     r = impl.call("config_attrs", [])
     missing = sorted(set(r[1]) - set(UNKNOWN_KEYS)) if r[0] == "ok" else ["<config_attrs failed: %r>" % (r,)]
-    if missing:
+    if missing and r[0] == "ok":
+        # Config() has attribute names the static universe of undefined keys does not contain (a refactoring added a private
+        # helper, say): they are undefined keys like any other - test them here, in config.json and config.toml, alone and
+        # next to defined keys, for several subcommands, with the literal-property oracle; only a misbehaviour is reported
+        subs_all = list(ACCEPTS)
+        extra_bad = 0
+        for i, uk in enumerate(missing[:40]):
+            for where in (0, 1):
+                for sub in [subs_all[(i + 5 * where) % len(subs_all)], ""]:
+                    d = {uk: ["junk", "", 5][(i + where) % 3] if not where else "junk"}
+                    if i % 2:
+                        d["log_level"] = "debug"
+                    d["output_format"] = "bin"
+                    ftoml, fjson = (d, None) if where else (None, d)
+                    c = _mk_main_case("unknown-key-live-attr", sub, True, [], ftoml, fjson, b"00\n" if sub == "" else None)
+                    v = impl.oracle(c)
+                    if v is not None and extra_bad < 3:
+                        extra_bad += 1
+                        out.append({"kind": "input", "case": common.case_to_json(c), "observed": common.short(v, 600),
+                                    "expected": "the literal property statement (independent Python reference)", "oracle": v,
+                                    "failing_input_found": True})
+        stats.setdefault("extra", {})["live_config_attrs_tested_as_unknown_keys"] = missing[:40]
+    elif missing:
         out.append({"kind": "obligation", "obligation": "harness:config-attrs",
-                    "detail": "attribute names of Config() not among the undefined keys that are generated: %r" % missing})
+                    "detail": "attribute names of Config() could not be read: %r" % missing})
     r = impl.call("io_branches", [])
     covered = sorted(set(tuple(b) for sc in SCENARIOS.values() for b in sc[6]))
     live = sorted(tuple(x) for x in common.norm(r[1])) if r[0] == "ok" else None
